@@ -413,6 +413,25 @@ func analyseCarry(p *Program, r *Report, k *ssa.Function, key string, stateParam
 						if ri >= len(ret.Results) {
 							continue
 						}
+						// R06.2c: what is returned for this state is the carried variable itself, not a transformed copy
+						rv := ret.Results[ri]
+						if !phiWeb(phi)[rv] && canReach(h.Instrs[0], ret) {
+							same := true
+							for _, o := range origins(rv) {
+								if o == nil {
+									continue
+								}
+								if _, isPrm := o.(*ssa.Parameter); isPrm {
+									continue // the shared entry value
+								}
+								if !phiWeb(phi)[o] {
+									same = false
+								}
+							}
+							if !same {
+								r.Fail("R06.2", ckey+":returned-other-value", p.Pos(ret.Pos()), fmt.Sprintf("state `%s` is carried through the run as `%s`, but the value returned for it is a different quantity (%s): the next segment resumes from something the uninterrupted run never used", prm.Name(), name, describeVal(rv)))
+							}
+						}
 						unchanged := true
 						for _, o := range origins(ret.Results[ri]) {
 							if o != ssa.Value(prm) {
